@@ -81,9 +81,13 @@ def _cut_offsets(ch, L, truth, tier):
         return list(range(L))
     ks = set(range(min(L, 64)))
     bounds = [truth.header_len] + [b[1] for b in truth.blocks]
+    if len(bounds) > 16:
+        # hundreds / thousands of blocks: the first and last few boundaries and a seeded sample
+        pick = set(range(6)) | set(range(len(bounds) - 6, len(bounds))) | {ch.draw(len(bounds)) for _ in range(8)}
+        bounds = [bounds[i] for i in sorted(pick)]
     for b in bounds:
         ks.update(range(max(0, b - 24), min(L, b + 24)))
-    stride = max(1, L // 200)
+    stride = max(1, L // 120)
     ks.update(range(ch.draw(stride), L, stride))
     return sorted(ks)
 
@@ -106,9 +110,11 @@ def build_file(ch, ctx):
         d["history_ops"] = ops[:40]
         return data, "c07history", d, list(model.records), node
     if src == 0:
-        sc = common.container_scenario(ch, max_records=10)
-        sc.sync_interval = common.draw_sync_interval(ch, common.encoded_sizes(sc))
-        if ch.chance(8):
+        sc = common.container_scenario(ch, max_records=10, size_profiles=True)
+        sc.sync_interval = common.draw_sync_interval(ch, common.encoded_sizes(sc) if sc.profile == "small" else [8], sc)
+        if sc.profile != "small":
+            ctx.probe("profile_" + sc.profile)
+        if sc.profile == "small" and ch.chance(8):
             # >= 64 tiny records in one block: the block's count is a multi-byte varint
             sc.schema = {"type": "record", "name": "Tiny", "fields": [{"name": "serial", "type": "long"}]}
             sc.node = refavro.resolve(sc.schema)
